@@ -125,6 +125,34 @@ def verbatim_value(body):
     return body.replace('\\`', '`')
 
 
+UNTERMINATED = object()
+
+
+def string_tokens(text):
+    """The string literals of an expression text, left to right, as (q, body)
+    pairs, or UNTERMINATED when a quote is opened and never closed.  A literal
+    starts at a quote character outside any literal and ends at the first
+    following q that is not paired with a backslash (the rule of
+    is_token_body): where a literal ends is decided by its own characters,
+    never by the text after it."""
+    out = []
+    i = 0
+    n = len(text)
+    while i < n:
+        q = text[i]
+        i += 1
+        if q not in STYLES:
+            continue
+        start = i
+        while i < n and text[i] != q:
+            i += 2 if text[i] == '\\' else 1
+        if i >= n:
+            return UNTERMINATED
+        out.append((q, text[start:i]))
+        i += 1
+    return out
+
+
 # --------------------------------------------------------------------------
 # numbers
 # --------------------------------------------------------------------------
